@@ -123,14 +123,100 @@ def cases(draw, fast=True):
              renorm=draw(st.sampled_from([-1, 0, 0, 50])), K=5.0)
     if fpt == 3 and draw(st.integers(0, 3)) == 0:
         c["zoom2"] = float(draw(st.sampled_from([0.6, 1.0, 1.7])))
-    if fpt in (1, 2):
+    # the distribution has to stay inside the grid (+-6 natural units): wide starts only where damping shrinks them
+    if fpt == 1:
         c["K"] = 1.0
         c["zoom"] = min(max(z, 0.7), 1.5)
+    if fpt == 2:
+        c["K"] = 0.5
+        c["zoom"] = min(max(z, 0.5), 1.0)
     if fpt == 0:
         c["K"] = min(5.0, 5.0 * e1 * steps / 10 * 1.0)      # at most 5 synchrotron periods
+        c["zoom"] = min(max(z, 0.5), 1.3)
+    return c
+
+
+# ------------------------------------------------------------------ API cross-check: operator iterated in the shim, e1 given directly
+def run_api(case):
+    from vlib import shim as shimmod
+    s = shimmod.get()
+    n, steps, e1, z, fpt, it, deriv = case["n"], case["steps"], case["e1"], case["zoom"], case["fptype"], case["it"], case["deriv"]
+    s.reset(n, 1)
+    L = 6.0
+    sy = case.get("sy", 0.0)
+    kw = dict(qscale=1.2e-3, pscale=6.11e5)
+    g1 = s.ps_new(-L, L, -L + sy, L + sy, zoom=z, **kw)
+    g2 = s.ps_new(-L, L, -L + sy, L + sy, **kw)
+    g3 = s.ps_new(-L, L, -L + sy, L + sy, **kw)
+    theta = float(np.float32(2 * np.pi / steps))
+    rf = s.map_rf_linear(g1, g2, theta, 5e8, it)
+    dr = s.map_drift(g2, g3, [theta, 0.0, 0.0], 1.3e9, it)
+    fp = s.map_fp(g3, g1, fpt, 0, e1, deriv)
+    q = s.ps_get(g1, "axis0").astype(np.float64)
+    p = s.ps_get(g1, "axis1").astype(np.float64)
+
+    def widths():
+        d = s.ps_data(g1)[0].astype(np.float64)
+        tot = d.sum()
+        pq_, pp_ = d.sum(axis=1) / tot, d.sum(axis=0) / tot
+        mq, mp = (pq_ * q).sum(), (pp_ * p).sum()
+        return np.sqrt((pq_ * (q - mq) ** 2).sum()), np.sqrt((pp_ * (p - mp) ** 2).sum())
+    nsteps = int(case["K"] * 2 / e1)
+    rec_at = int(2 * 2 / e1)
+    w0 = widths()
+    w2 = None
+    hist = []
+    every = max(1, nsteps // 60)
+    for k in range(nsteps):
+        s.map_apply(rf)
+        s.map_apply(dr)
+        s.map_apply(fp)
+        if k + 1 == rec_at:
+            w2 = widths()
+        if (k + 1) % every == 0:
+            hist.append(widths())
+    we = widths()
+    tau = tau_disc(n, deriv)
+    cls = ["api", "fpt%d" % fpt, "d%d" % deriv, "it%d" % it, "shifted" if sy else "centred"]
+    nontriv = bool(abs(z - 1) >= 0.25)
+    met = {}
+    if fpt == 3:
+        dev = max(abs(we[0] - 1), abs(we[1] - 1))
+        met["api_eq_dev_over_tau"] = dev / (tau + e1)
+        if dev > tau + e1:
+            return Outcome(False, nontriv, cls, "operator level: after %d steps (5 damping times) widths %.5f / %.5f, expected 1 +- %.4f (n=%d stencil %d it=%d e1=%.3g zoom=%g shiftY=%g)" %
+                           (nsteps, we[0], we[1], tau + e1, n, deriv, it, e1, z, sy), sig="c04:api:equilibrium", metrics=met)
+        if w2 is not None:
+            allow2 = 1.6 * abs(z * z - 1) / 2 * np.exp(-4) + 0.004 + 0.6 * theta * abs(z - 1) * np.exp(-2)
+            dev2 = max(abs(w2[0] - we[0]), abs(w2[1] - we[1]))
+            met["api_dev2_over_allow"] = dev2 / allow2
+            if dev2 > allow2:
+                return Outcome(False, nontriv, cls, "operator level: after 2 damping times widths %.5f / %.5f are still %.4f from their limit (allowed %.4f)" % (w2[0], w2[1], dev2, allow2), sig="c04:api:rate", metrics=met)
+    else:
+        h = np.array(hist)
+        for j, nm in ((0, "bunch length"), (1, "energy spread")):
+            rel = np.diff(h[:, j]) / h[:-1, j]
+            if fpt == 1 and (rel.max() > 0.7 * theta or not h[-1, j] < 0.8 * w0[j]):
+                return Outcome(False, nontriv, cls, "operator level, damping only: %s does not shrink monotonically (%.4f -> %.4f, largest rise %.3g)" % (nm, w0[j], h[-1, j], rel.max()), sig="c04:api:damping_only")
+            if fpt == 2 and (rel.min() < -0.7 * theta or not h[-1, j] > 1.1 * w0[j]):
+                return Outcome(False, nontriv, cls, "operator level, diffusion only: %s does not grow monotonically (%.4f -> %.4f)" % (nm, w0[j], h[-1, j]), sig="c04:api:diffusion_only")
+            if fpt == 0 and np.abs(h[:, j] - w0[j]).max() / w0[j] > 0.7 * theta + 0.01:
+                return Outcome(False, nontriv, cls, "operator level, neither: %s moves by %.4g" % (nm, np.abs(h[:, j] - w0[j]).max() / w0[j]), sig="c04:api:none")
+    return Outcome(True, nontriv, cls, metrics=met)
+
+
+@st.composite
+def api_cases(draw):
+    c = draw(cases(fast=True))
+    c["n"] = draw(st.sampled_from([48, 64, 64, 80]))
+    delta = 12.0 / (c["n"] - 1)
+    c["e1"] = float(10 ** draw(st.floats(np.log10(2e-3), np.log10(min(2e-2, 0.35 * delta ** 2)))))
+    c["sy"] = gen.f32(draw(st.floats(-1.0, 1.0))) if draw(st.booleans()) else 0.0
+    c["K"] = {0: 0.2, 1: 1.0, 2: 0.5, 3: 5.0}[c["fptype"]]
     return c
 
 
 def subs(tier):
     return [Sub("relax", cases(fast=(tier == "quick")), run_case, quick=320, thorough=1500, needs=("rel", "h5x"), shrink_budget=16,
-                max_wall={"quick": 400, "thorough": 3000})]
+                max_wall={"quick": 400, "thorough": 3000}),
+            Sub("api", api_cases(), run_api, quick=96, thorough=2000, needs=("shim",), shrink_budget=16)]
